@@ -658,10 +658,9 @@ func (c *Ctx) ruleC11Paren(m *scanfsm.Machine) {
 			r.Ok("C11-PAREN-EVENTS", key, "next state "+s.next+" expects a directive", c.pos(m.Pos[s.st]))
 			continue
 		}
-		allowed := " \t\n\r#"
-		if strings.Contains(s.ev, "Close") {
-			allowed += "\x00"
-		}
+		// the end of the file is as good as the end of the line after either parenthesis: an included file may end
+		// there (C09-EOF-AS-EOL); a context left open at the end of the ROOT file is reported by the core (C11-CLOSE)
+		allowed := " \t\n\r#\x00"
 		bad := ""
 		for _, b := range m.NonErrorBytes(s.next) {
 			if !strings.ContainsRune(allowed, rune(b)) {
@@ -669,7 +668,7 @@ func (c *Ctx) ruleC11Paren(m *scanfsm.Machine) {
 			}
 		}
 		if bad == "" {
-			r.Ok("C11-PAREN-EVENTS", key, fmt.Sprintf("state %s accepts only blanks, line ends%s and comments", s.next, map[bool]string{true: ", EOF", false: ""}[strings.Contains(s.ev, "Close")]), c.pos(m.Pos[s.st]))
+			r.Ok("C11-PAREN-EVENTS", key, fmt.Sprintf("state %s accepts only blanks, line ends, the end of the file and comments", s.next), c.pos(m.Pos[s.st]))
 		} else {
 			r.Bad("C11-PAREN-EVENTS", key, fmt.Sprintf("after the parenthesis state %s also accepts %s", s.next, bad), c.pos(m.Pos[s.st]))
 		}
